@@ -29,7 +29,7 @@ fn meta(ctx: &Ctx) -> Meta {
     Meta {
         level: "exploration",
         rule: format!(
-            "bounded-exhaustive destinations: every string of up to {} tokens over {:?} (release; one token fewer in verifdbg) is given to with_file + build: no panic, and a destination that does not start with '/' or './' or has no file name (component list empty or ending in '..') must be an error; capability strings (all strings up to 5 tokens of C19's alphabet; 3 in verifdbg) through FileOptions::caps + build: no panic, InvalidCapabilities as the error kind, and text that C19's grammar model rejects must not be accepted; every compression type with levels 0..=25, 100, 2^31, u32::MAX (zstd: i32::MIN, -200..=30, i32::MAX) then build() with a small file - if Ok the payload must decompress independently and contain the file; metadata setters with NUL / newline / 64 KiB / odd strings, extreme epochs and modes, missing and directory sources. Release and verifdbg. Building with each compression type is repeated in builds of the library with three other cargo feature sets (none, gzip only, default): an error is fine, a panic is not. distinct_nontrivial = distinct argument tuples executed",
+            "bounded-exhaustive destinations: every string of up to {} tokens over {:?} (release; one token fewer in verifdbg) is given to with_file + build: no panic, and a destination that does not start with '/' or './' or has no file name (component list empty or ending in '..') must be an error; capability strings (all strings up to 5 tokens of C19's alphabet; 3 in verifdbg) through FileOptions::caps + build: no panic, InvalidCapabilities as the error kind, and text that C19's grammar model rejects must not be accepted; every compression type with levels 0..=25, 100, 2^31, u32::MAX (zstd: i32::MIN, -200..=30, i32::MAX) then build() with a small file - if Ok the payload must decompress independently and contain the file; metadata setters with NUL / newline / 64 KiB / odd strings, extreme epochs and modes, missing and directory sources. Release and verifdbg. Building with each compression type is repeated in builds of the library with three other cargo feature sets (none, gzip only, default): an error is fine, a panic is not. Destination sets: all ordered pairs of 19 related paths and all triples of 14, incl. one directory under several spellings (/a/b, /./a/y, ././a/z, /a/./b/h, //a/k, /a/b/../b/m). distinct_nontrivial = distinct argument tuples executed",
             max_tokens(ctx),
             TOKENS
         ),
